@@ -164,7 +164,10 @@ func Generate(r *core.Rng, cfg Config) *Program {
 		g.p.Host = append(g.p.Host,
 			HostImport{Name: "hcb", Kind: "cb", Params: []wenc.ValType{i32}, Results: []wenc.ValType{i32}},
 			HostImport{Name: "hgrow", Kind: "grow", Params: []wenc.ValType{i32}, Results: []wenc.ValType{i32}},
-			HostImport{Name: "hwrite", Kind: "write", Params: []wenc.ValType{i32, i32}, Results: nil})
+			HostImport{Name: "hwrite", Kind: "write", Params: []wenc.ValType{i32, i32}, Results: nil},
+			// hclose: only acts when the runner enables it (wrun.Options.HostClose): closes the calling module
+			// with exit code 7 and returns normally; otherwise returns 0
+			HostImport{Name: "hclose", Kind: "close", Params: []wenc.ValType{i32}, Results: []wenc.ValType{i32}})
 	}
 	for _, h := range g.p.Host {
 		m.ImportFunc(cfg.HostModuleName(), h.Name, h.Params, h.Results)
